@@ -827,6 +827,16 @@ def delocalised(fn):
             e = e.value
         return e.id if isinstance(e, ast.Name) else None
     m, keep = {}, []
+    body0 = []
+    for st in f.body:       # a, b = self.x, v.y   ->   a = self.x ; b = v.y
+        if isinstance(st, ast.Assign) and len(st.targets) == 1 and isinstance(st.targets[0], ast.Tuple) and \
+                isinstance(st.value, ast.Tuple) and len(st.targets[0].elts) == len(st.value.elts) and \
+                all(isinstance(t_, ast.Name) for t_ in st.targets[0].elts) and all(isinstance(v_, ast.Attribute) for v_ in st.value.elts):
+            for t_, v_ in zip(st.targets[0].elts, st.value.elts):
+                body0.append(ast.copy_location(ast.Assign(targets=[t_], value=v_, type_comment=None), st))
+        else:
+            body0.append(st)
+    f.body = body0
     for st in f.body:
         if isinstance(st, ast.Assign) and len(st.targets) == 1 and isinstance(st.targets[0], ast.Name) and \
                 isinstance(st.value, ast.Attribute) and cnt.get(st.targets[0].id) == 1 and \
